@@ -270,10 +270,21 @@ def extend_schema(
     schema = extended
 
     if schema_directives is not None:
-        # Only the directives of the extension document: the ones found on the
-        # parse nodes of the schema being extended were applied when it was
-        # built and applying them again would e.g. wrap resolvers twice.
-        schema = apply_schema_directives(schema, schema_directives, within=ast)
+        # Only the directives written in the parts of the document which this
+        # extension uses. The ones found on the parse nodes of the schema being
+        # extended were applied when it was built (applying them again would
+        # e.g. wrap resolvers twice); that includes the definitions of this
+        # very document which are skipped because the schema already has them
+        # (two phase build from one document with strict=False).
+        used = (
+            list(schema_exts)
+            + list(type_defs.values())
+            + list(directive_defs.values())
+            + [ext for exts in type_exts.values() for ext in exts]
+        )  # type: list
+        schema = apply_schema_directives(
+            schema, schema_directives, within=used
+        )
 
     schema.validate()
     return schema
